@@ -194,6 +194,15 @@ func c20Directed() []rawReq {
 				rawReq{Method: "GET", URL: "http://emu/storage/v1/b/" + bk + "/o/after-degenerate?alt=media"})
 		}
 	}
+	// chunks of the pending resumable session (upload_id=1) that are consistent with their body but
+	// declare absurd totals or offsets: the answer is 308 / 400, never a crash or an allocation of that size
+	for _, cr := range []string{"bytes 0-3/4611686018427387904", "bytes 0-3/9223372036854775807", "bytes 0-3/1000000000000000000", "bytes 0-3/99999999999", "bytes 0-3/*", "bytes 4-7/18446744073709551615", "bytes 4-7/9223372036854775806", "bytes 0-3/3", "bytes 0-3/0"} {
+		out = append(out,
+			rawReq{Method: "PUT", URL: "http://emu/upload/storage/v1/b/bkt/o?uploadType=resumable&upload_id=1", Headers: map[string]string{"Content-Range": cr}, Body: []byte("abcd")},
+			rawReq{Method: "PUT", URL: "http://emu/upload/storage/v1/b/bkt/o?uploadType=resumable&upload_id=1", Headers: map[string]string{"Content-Range": "bytes */*"}},
+			rawReq{Method: "POST", URL: "http://emu/upload/storage/v1/b/bkt/o?uploadType=media&name=after-degenerate", Headers: map[string]string{"Content-Type": "text/plain"}, Body: []byte("still works")},
+			rawReq{Method: "GET", URL: "http://emu/storage/v1/b/bkt/o/after-degenerate?alt=media"})
+	}
 	// bucket names that are not one plain path segment, and a copy whose destination bucket is a path
 	// into another bucket
 	for _, bn := range []string{`""`, `"."`, `".."`, `"../escaped-bucket"`, `"../../escaped-bucket2"`, `"bkt/keep"`, `"x/y"`} {
@@ -326,8 +335,14 @@ func genC20(out, tier string, rng *rand.Rand) {
 		e.Exec(Req{Kind: "resumable_init", B: "bkt", Up: &UpMeta{Name: "victim-resumable"}, CP: noConds})
 		before := c20Probe(e)
 		var mine []rawCase
+		inflight := func(r rawReq) {
+			// left behind for the driver: if this process dies, these are the requests that were running
+			b, _ := json.Marshal(r)
+			_ = os.WriteFile(filepath.Join(out, fmt.Sprintf("inflight_%d.json", w)), b, 0o666)
+		}
 		for i := w / 2; i < len(reqs); i += nworkers {
 			r := reqs[i]
+			inflight(r)
 			c := judge(e, r, before)
 			c.Store = mk.name
 			mine = append(mine, c)
@@ -348,6 +363,7 @@ func genC20(out, tier string, rng *rand.Rand) {
 			// of each group must succeed
 			cur := before
 			for i, r := range directed {
+				inflight(r)
 				c := judge(e, r, cur)
 				c.Store = mk.name
 				if after := c20Probe(e); after != cur {
@@ -376,6 +392,7 @@ func genC20(out, tier string, rng *rand.Rand) {
 				}
 			}
 		}
+		_ = os.Remove(filepath.Join(out, fmt.Sprintf("inflight_%d.json", w)))
 		mu.Lock()
 		all = append(all, mine...)
 		mu.Unlock()
